@@ -1243,7 +1243,7 @@ class Router:
             ht=HeaderType.LS,
             hst=cast(HeaderSubType, LocationServiceHST.LS_REQUEST),
             tc=TrafficClass(),
-            flags=self.mib.itsGnIsMobile.value,
+            flags=self.mib.itsGnIsMobile.value << 7,
             pl=0,
             mhl=self.mib.itsGnDefaultHopLimit,
         )
@@ -1401,7 +1401,7 @@ class Router:
                     ht=HeaderType.LS,
                     hst=cast(HeaderSubType, LocationServiceHST.LS_REPLY),
                     tc=TrafficClass(),
-                    flags=self.mib.itsGnIsMobile.value,
+                    flags=self.mib.itsGnIsMobile.value << 7,
                     pl=0,
                     mhl=self.mib.itsGnDefaultHopLimit,
                 )
